@@ -1,6 +1,7 @@
 package props
 
 import (
+	"bytes"
 	"encoding/binary"
 	"errors"
 	"fmt"
@@ -80,6 +81,16 @@ func runC12(c *fw.Case) {
 		default:
 			recs = append(recs, gen.Payload(r, 200))
 		}
+	}
+	// every 40th case: a file with ONE record of 512 KiB .. 1.2 MiB between small ones (beyond every pooled buffer size);
+	// its cut lengths and header bytes are sampled instead of enumerated
+	bigCase := c.Idx%40 == 17
+	if bigCase {
+		nb := gen.Pick(r, 512*1024+1, 1<<20, 1<<20+1, 1200*1024)
+		big := bytes.Repeat(gen.Bytes(r, 1000), nb/1000+1)[:nb]
+		recs = [][]byte{gen.Payload(r, 50), big, gen.Payload(r, 50), nil}
+		wbuf = 4096
+		c.Obs("files_with_a_record_of_half_a_mebibyte_or_more", 1)
 	}
 	for _, rec := range recs {
 		c.HashAdd(rec, rec == nil)
@@ -246,7 +257,21 @@ func runC12(c *fw.Case) {
 	}
 
 	// (a) truncations
+	cutSet := map[int]bool{}
+	if bigCase {
+		for _, pr := range pf.Recs {
+			for d := -2; d <= 2; d++ {
+				cutSet[pr.Start+d], cutSet[pr.PayloadOff+d], cutSet[pr.End()+d] = true, true, true
+			}
+		}
+		for i := 0; i < 40; i++ {
+			cutSet[r.Intn(len(img)+1)] = true
+		}
+	}
 	for L := 0; L <= len(img); L++ {
+		if bigCase && !cutSet[L] {
+			continue
+		}
 		whole := 0
 		for whole < len(pf.Recs) && pf.Recs[whole].End() <= L {
 			whole++
